@@ -12,16 +12,17 @@
 (* ("data": evaluated content differs, "flags": only merge flags differ,    *)
 (* "err": error class / success differs) and printed with the trace id.     *)
 (***************************************************************************)
-EXTENDS AyBuild, Props_C02, Props_C03, Props_C04, Props_C05, Props_C08, Props_C15, IOUtils, TLCExt
+EXTENDS AyBuild, Props_C02, Props_C03, Props_C04, Props_C05, Props_C08, Props_C14, Props_C15, IOUtils, TLCExt
 
 CONSTANT Prop   \* which property's declarative formula is evaluated on the logged outcomes
 
 Traces == ndJsonDeserialize(IOEnv.TRACE_FILE)
 
 VARIABLES tid, l, verdict,
-          louts   \* the outcomes the library produced, as logged, stage by stage
+          louts,  \* the outcomes the library produced, as logged, stage by stage
+          lbuilt  \* the outcome of Config construction, as logged
 
-tvars == <<vars, tid, l, verdict, louts>>
+tvars == <<vars, tid, l, verdict, louts, lbuilt>>
 
 RECURSIVE NodeOfJ(_)
 NodeOfJ(j) == IF "err" \in DOMAIN j THEN j
@@ -35,6 +36,7 @@ TInit == /\ Init
          /\ l = 1
          /\ verdict = "ok"
          /\ louts = <<>>
+         /\ lbuilt = [status |-> "none", paths |-> <<>>, calls |-> 0]
 
 IsEvent(e) == l <= Len(Ev) /\ Ev[l].e = e /\ l' = l + 1
 
@@ -54,16 +56,16 @@ Judge(model, logged) ==
 
 TAddSource == /\ IsEvent("AddSource")
               /\ AddSource(0, SDofJ(Ev[l].sd), Ev[l].safe)
-              /\ UNCHANGED <<tid, verdict, louts>>
+              /\ UNCHANGED <<tid, verdict, louts, lbuilt>>
 TFlattenFirst == /\ IsEvent("FlattenFirst") /\ FlattenFirst
                  /\ Judge(acc', NodeOfJ(Ev[l].acc))
                  /\ louts' = Append(louts, NodeOfJ(Ev[l].acc))
-                 /\ UNCHANGED tid
+                 /\ UNCHANGED <<tid, lbuilt>>
 TMergeStage == /\ IsEvent("MergeStage") /\ MergeStage
                /\ Judge(acc', NodeOfJ(Ev[l].acc))
                /\ louts' = Append(louts, NodeOfJ(Ev[l].acc))
-               /\ UNCHANGED tid
-TFinish == /\ IsEvent("Finish") /\ Finish /\ UNCHANGED <<tid, verdict, louts>>
+               /\ UNCHANGED <<tid, lbuilt>>
+TFinish == /\ IsEvent("Finish") /\ Finish /\ UNCHANGED <<tid, verdict, louts, lbuilt>>
 
 \* The specification has already failed (a stage raised an error in the model)
 \* but the library went on: the remaining events are consumed without a model
@@ -72,9 +74,16 @@ TBeyondFailure ==
     /\ phase = "failed" /\ l <= Len(Ev) /\ l' = l + 1
     /\ verdict' = IF verdict = "ok" THEN "err" ELSE verdict
     /\ louts' = IF "acc" \in DOMAIN Ev[l] THEN Append(louts, NodeOfJ(Ev[l].acc)) ELSE louts
-    /\ UNCHANGED <<vars, tid>>
+    /\ UNCHANGED <<vars, tid, lbuilt>>
 
-TNext == TAddSource \/ TFlattenFirst \/ TMergeStage \/ TFinish \/ TBeyondFailure
+\* the library constructed the Config: status and reported paths are logged
+TConstruct == /\ IsEvent("Construct") /\ Construct
+              /\ lbuilt' = [status |-> Ev[l].status, paths |-> Ev[l].paths, calls |-> Ev[l].calls]
+              /\ verdict' = IF verdict # "ok" THEN verdict
+                            ELSE IF (built'.status = "RequiredError") <=> (Ev[l].status = "RequiredError") THEN "ok" ELSE "err"
+              /\ UNCHANGED <<tid, louts>>
+
+TNext == TConstruct \/ TAddSource \/ TFlattenFirst \/ TMergeStage \/ TFinish \/ TBeyondFailure
 
 TSpec == TInit /\ [][TNext]_tvars
 
@@ -130,6 +139,8 @@ PropVerdict ==
       [] Prop = "C05" -> IF C05_TraceHolds(louts, RelOuts) THEN "holds" ELSE "violated"
       [] Prop = "C08" -> IF ~C08_Judged(HistDocs, louts) THEN "outside"
                          ELSE IF C08_Holds(HistDocs, louts) THEN "holds" ELSE "violated"
+      [] Prop = "C14" -> IF lbuilt.status = "none" THEN "outside"
+                         ELSE IF C14_Holds(louts, lbuilt) THEN "holds" ELSE "violated"
       [] Prop = "C15" -> IF ~C15_InDomain(HistDocs) THEN "outside"
                          ELSE IF C15_TraceHolds(louts, RelOuts) THEN "holds" ELSE "violated"
       [] OTHER -> "none"
@@ -141,6 +152,8 @@ ModelVerdict ==
       [] Prop = "C04" -> IF C04_Holds(HistDocs, accs) THEN "holds" ELSE "violated"
       [] Prop = "C05" -> IF C05_TraceHolds(accs, ModelRelOuts) THEN "holds" ELSE "violated"
       [] Prop = "C08" -> IF C08_Holds(HistDocs, accs) /\ C08_ModelNames(HistDocs, accs) THEN "holds" ELSE "violated"
+      [] Prop = "C14" -> IF C14_Holds(accs, [status |-> built.status, paths |-> built.paths, calls |-> 0])
+                            /\ (phase = "constructed" => C14_Survivors(HistDocs, acc)) THEN "holds" ELSE "violated"
       [] Prop = "C15" -> IF ~C15_InDomain(HistDocs) \/ C15_TraceHolds(accs, ModelRelOuts) THEN "holds" ELSE "violated"
       [] OTHER -> "none"
 
